@@ -7,12 +7,13 @@ name=$1; patch=$2; prop=$3; tier=${4:-quick}
 dir=/tmp/verif-mut/$name
 rm -rf "$dir"; git -C /repo worktree prune
 git -C /repo worktree add --detach -q "$dir" HEAD || exit 3
-if ! git -C "$dir" apply "$patch"; then echo "PATCH DOES NOT APPLY"; git -C /repo worktree remove --force "$dir"; exit 3; fi
+if ! git -C "$dir" apply "$patch" 2>/dev/null && ! git -C "$dir" apply -C1 "$patch"; then echo "PATCH DOES NOT APPLY"; git -C /repo worktree remove --force "$dir"; exit 3; fi
 (cd "$dir" && GOFLAGS=-mod=mod GOPROXY=off go build ./... >/dev/null 2>&1)
 VERIF_REPO_DIR=$dir VERIF_HANG_S=${VERIF_HANG_S:-15} timeout ${MUT_TIMEOUT:-900} /verif/check "$prop" "$tier" > /tmp/verif-mut/$name.out 2>&1
 rc=$?
 grep -E "^VIOLATION|violation \[|INCONCLUSIVE|evaluations=" /tmp/verif-mut/$name.out | cut -c1-400 | head -8
 echo "mutant $name vs $prop: rc=$rc"
 git -C /repo worktree remove --force "$dir"
-rm -rf /verif/.work/alt-* /verif/.work/run-*
+h=$(printf %s "$dir" | sha1sum | cut -c1-8)
+rm -rf /verif/.work/alt-$h /verif/.work/run-$h
 exit $rc
